@@ -311,7 +311,12 @@ def build_dsl(case, name="m"):
     from BPTK_Py import Model
 
     g = grid(case)
-    model = Model(starttime=g[0], stoptime=g[-1], dt=float(case["dt"]), name=name)
+    late = case.get("late_runspecs")
+    if late:
+        # built under other run specs; the generated ones are set with Model.run_specs once the model is complete
+        model = Model(starttime=float(late[0]), stoptime=float(late[0]) + 10.0, dt=float(late[1]), name=name)
+    else:
+        model = Model(starttime=g[0], stoptime=g[-1], dt=float(case["dt"]), name=name)
     elems = {}
     for c in case["constants"]:
         e = model.constant(c["name"])
@@ -333,6 +338,8 @@ def build_dsl(case, name="m"):
         init = s["init"]
         st_.initial_value = elems[init[1]] if isinstance(init, list) else float(init)
         st_.equation = lower_model_tree(s["eq"], elems, model, consts)
+    if late:
+        model.run_specs(g[0], g[-1], float(case["dt"]))
     return model, elems
 
 
@@ -364,6 +371,8 @@ def element_names(case):
 # generator
 
 NICE = [0.25, 0.5, 1.0, 1.5, 2.0, 3.0, 4.0, 0.1, 0.3, 5.0, 8.0, -1.0, -2.0, -0.5, 0.75, 10.0]
+# literals with more significant digits than any short formatting keeps
+LONG = [0.0312345678, 3.14159265, 1.23456789, 12345.6789, 0.693147181, -2.718281828, 1234567.25, 0.08333333]
 RUNSPECS = [("0", "1"), ("0", "0.5"), ("1", "0.25"), ("0", "0.125"), ("0", "0.1"), ("1", "0.2"), ("0", "0.05"),
             ("2.5", "0.5"), ("0.5", "0.1"), ("10", "1"), ("0", "0.25"), ("1", "1"), ("100.1", "0.1"), ("-1", "0.5"),
             # start times with more decimals than dt
@@ -460,7 +469,8 @@ def model_strategy(max_n=30, builtins=True, runspecs=None, stock_builtins=True, 
             opts = [st.sampled_from(avail).map(lambda nm: ["ref", nm]) if avail else st.just(["num", 1.0]),
                     st.sampled_from(stock_names).map(lambda nm: ["ref", nm]),
                     st.sampled_from([c["name"] for c in constants]).map(lambda nm: ["ref", nm]),
-                    st.sampled_from(NICE).map(lambda v: ["num", v])]
+                    st.sampled_from(NICE).map(lambda v: ["num", v]),
+                    st.sampled_from(NICE + NICE + LONG).map(lambda v: ["num", v])]
             return st.one_of(*opts)
 
         def arith(avail, depth):
@@ -570,6 +580,10 @@ def model_strategy(max_n=30, builtins=True, runspecs=None, stock_builtins=True, 
             init = draw(st.one_of(st.sampled_from([0.0, 1.0, 5.0, 10.0, 2.5, 100.0]),
                                   st.sampled_from([c["name"] for c in constants]).map(lambda nm: ["ref", nm])))
             stocks.append({"name": sn, "init": init, "eq": tree})
-        return {"start": start, "dt": dt, "n": n, "constants": constants, "points": points, "stocks": stocks, "aux": aux}
+        case = {"start": start, "dt": dt, "n": n, "constants": constants, "points": points, "stocks": stocks, "aux": aux}
+        if draw(st.integers(0, 3)) == 0:
+            # the run specs are set (Model.run_specs) after all equations have been defined
+            case["late_runspecs"] = draw(st.sampled_from([["0", "1"], ["1", "0.5"], ["0", "0.25"]]))
+        return case
 
     return build()
